@@ -8,3 +8,5 @@ cargo build --offline --manifest-path driver/Cargo.toml
 mkdir -p target evidence replays
 gcc -O1 -no-pie -o target/x86run native/x86run.c
 python3-vt -c "import z3; print('z3', z3.get_version_string())"
+# warm the MIR cache used by the Engine-B checks (C04, C07, C16)
+python3-vt -c "import sys; sys.path.insert(0,'/verif'); from mirsym import dump; print(dump.mir_path()[0])"
